@@ -1489,6 +1489,11 @@ protected:
 
     virtual void internal_pop(buffer_operation *op) {
         __TBB_ASSERT(op->elem, nullptr);
+        // the reserved item is the front one; try_get takes from the back and must not hand it out
+        if (this->my_reserved && this->my_tail - 1 == this->my_head) {
+            op->status.store(FAILED, std::memory_order_release);
+            return;
+        }
 #if __TBB_PREVIEW_FLOW_GRAPH_TRY_PUT_AND_WAIT
         bool pop_result = op->metainfo ? this->pop_back(*(op->elem), *(op->metainfo))
                                        : this->pop_back(*(op->elem));
